@@ -2,6 +2,7 @@
 mod c01;
 mod c02;
 mod c03;
+mod c12;
 mod common;
 
 use vkit::run::{Args, Report};
@@ -13,6 +14,7 @@ fn main() {
         "C01" => c01::run(&args, &mut rep),
         "C02" => c02::run(&args, &mut rep),
         "C03" => c03::run(&args, &mut rep),
+        "C12" => c12::run(&args, &mut rep),
         other => {
             eprintln!("wire: unknown property {}", other);
             std::process::exit(2);
